@@ -811,6 +811,56 @@ func goSpec(plat *c19Plat, user []c19Opt) (map[string]c19Val, bool) {
 	return exp, true
 }
 
+// c19Valid: the documented values of the validated options (Go-side copy).
+var c19Valid = map[string][]string{
+	"WithTransportType":           {"system", "standard", "telnet", "file"},
+	"WithNetconfPreferredVersion": {"1.0", "1.1"},
+	"logging_WithLevel":           {"info", "debug", "critical"},
+}
+
+// goExpectOK: by the documentation alone, must this construction succeed? (every validated option
+// carries a documented value, every named file exists, the network driver gets its privilege
+// levels and default desired privilege)
+func goExpectOK(ctor string, plat *c19Plat, user []c19Opt) bool {
+	exp, ok := goSpec(plat, user)
+	if !ok {
+		return false
+	}
+	for _, o := range user {
+		if !o.envOk {
+			return false
+		}
+		if vs, ok := c19Valid[o.name]; ok {
+			good := false
+			for _, v := range vs {
+				if argS(o, 0) == v {
+					good = true
+				}
+			}
+			if !good {
+				return false
+			}
+		}
+	}
+	if plat != nil {
+		for _, po := range plat.opts {
+			want := map[string]byte{"WithPort": 'i', "WithTransportReadSize": 'i', "WithTermHeight": 'i', "WithTermWidth": 'i',
+				"WithPromptPattern": 's', "WithUsernamePattern": 's', "WithPasswordPattern": 's', "WithPassphrasePattern": 's',
+				"WithReturnChar": 's', "WithTransportType": 's', "WithReadDelay": 'f', "WithTimeoutOps": 'f', "WithSystemTransportOpenArgs": 'l'}[c19PlatToOpt[po.name]]
+			if want != 0 && want != po.kind {
+				return false
+			}
+		}
+	}
+	if ctor == "network" {
+		d := exp["network.Driver.DefaultDesiredPriv"]
+		if len(d) != 1 || len(d[0]) == 0 || len(exp["network.Driver.PrivilegeLevels"]) == 0 {
+			return false
+		}
+	}
+	return true
+}
+
 // ---------------------------------------------------------------- platform definitions
 
 type c19PlatOpt struct {
@@ -1340,7 +1390,7 @@ func runC19(c *ctx) {
 			cases = append(cases, c19Case{class: "single", ctor: "logging", user: []c19Opt{genOpt(r, name, false)}})
 		}
 		// (2) random lists
-		for i := 0; i < c.n(2500, 250000); i++ {
+		for i := 0; i < c.n(8000, 400000); i++ {
 			ctor := r.Pick([]string{"generic", "network", "netconf", "generic", "network", "netconf", "logging"})
 			var u []c19Opt
 			n := r.Intn(15)
@@ -1371,7 +1421,7 @@ func runC19(c *ctx) {
 			cases = append(cases, c19Case{class: "random-" + ctor, ctor: ctor, user: u})
 		}
 		// (3) platform definitions: every recognised option name with a value of the documented type
-		for i := 0; i < c.n(900, 90000); i++ {
+		for i := 0; i < c.n(3000, 150000); i++ {
 			p := &c19Plat{driverType: r.Pick([]string{"network", "network", "generic"})}
 			if p.driverType == "network" || r.Chance(1, 3) {
 				p.privs = genOpt(r, "WithPrivilegeLevels", false).args[0]
@@ -1422,7 +1472,7 @@ func runC19(c *ctx) {
 			cases = append(cases, c19Case{class: class, ctor: p.driverType, plat: p, user: u})
 		}
 		// (4) order independence: shuffled copies of compatible lists
-		for i := 0; i < c.n(700, 70000); i++ {
+		for i := 0; i < c.n(2500, 120000); i++ {
 			ctor := r.Pick([]string{"generic", "network", "netconf"})
 			idx := c19Perm(r, len(c19DriverOpts))
 			n := r.Range(2, 14)
@@ -1463,16 +1513,7 @@ func runC19(c *ctx) {
 	}
 	ans := c.ask(lines)
 	unknownNoted := map[string]bool{}
-	k := 0
-	for i := range cases {
-		cs := &cases[i]
-		a := ans[k]
-		k++
-		compat := false
-		if cs.perm != nil {
-			compat = ans[k] == "1"
-			k++
-		}
+	eval := func(cs *c19Case, a string, compat bool, res *vlib.Result, i int) {
 		line := cs.line()
 		res.Count("class:" + cs.class)
 		res.Count("ctor:" + cs.ctor)
@@ -1481,13 +1522,13 @@ func runC19(c *ctx) {
 		f := strings.Fields(a)
 		if len(f) != 3 || !strings.HasPrefix(f[0], "dom=") || !strings.HasPrefix(f[1], "model=") || !strings.HasPrefix(f[2], "spec=") {
 			res.Fail("machinery", line, "driver answered "+a, "driver")
-			continue
+			return
 		}
 		dom := f[0] == "dom=1"
 		mF, mErr, mPanic, ok1 := parseModelRes(f[1][6:])
 		if !ok1 {
 			res.Fail("machinery", line, "driver answered "+a[:min(len(a), 200)], "driver")
-			continue
+			return
 		}
 		impl := runImpl(cs.ctor, cs.plat, cs.user)
 		if i%401 == 0 {
@@ -1511,24 +1552,24 @@ func runC19(c *ctx) {
 			// a value of the documented type / an ordinary option list must never panic
 			res.InDomain++
 			res.Fail("oracle", line, fmt.Sprintf("%s: implementation panicked: %s", describe(), impl.pmsg), "panic:"+panicSite(cs, impl.pmsg))
-			continue
+			return
 		case impl.panicked != mPanic:
 			sig := "panic-mismatch"
 			if impl.panicked {
 				sig = "panic-out-of-domain:" + panicSite(cs, impl.pmsg)
 			}
 			res.Fail("correspondence", line, fmt.Sprintf("%s: implementation panicked=%v (%s), model panic=%v", describe(), impl.panicked, impl.pmsg, mPanic), sig)
-			continue
+			return
 		case impl.panicked:
 			res.Count("outcome:panic(out-of-domain)")
-			continue
+			return
 		case impl.err != mErr:
 			kind := "correspondence"
 			if dom {
 				kind = "oracle"
 			}
 			res.Fail(kind, line, fmt.Sprintf("%s: implementation error class %q, model %q", describe(), impl.err, mErr), "wrong-error:"+impl.err+"-vs-"+mErr)
-			continue
+			return
 		case impl.err != "":
 			res.Count("outcome:err-" + impl.err)
 		default:
@@ -1539,7 +1580,7 @@ func runC19(c *ctx) {
 					kind = "oracle"
 				}
 				res.Fail(kind, line, describe()+": "+d, "wrong-field:"+fk)
-				continue
+				return
 			}
 		}
 		// --- oracle: implementation vs declarative spec, model vs spec (in-domain cases)
@@ -1548,23 +1589,35 @@ func runC19(c *ctx) {
 			sF, sErr, _, ok2 := parseModelRes(f[2][5:])
 			if !ok2 {
 				res.Fail("machinery", line, "driver answered spec "+f[2][:min(len(f[2]), 200)], "driver")
-				continue
+				return
 			}
-			if sErr != mErr || (sF != nil) != (mF != nil) {
-				res.Fail("machinery", line, fmt.Sprintf("model %q vs spec %q", mErr, sErr), "model-vs-spec")
-				continue
+			// implementation vs what the property demands
+			implBad := ""
+			switch {
+			case sErr != impl.err:
+				implBad = fmt.Sprintf("error class %q, the property demands %q", impl.err, sErr)
+				res.Fail("oracle", line, describe()+": "+implBad, "wrong-error:"+impl.err+"-vs-"+sErr)
+			case sF != nil:
+				if fk, d := diffFields(cs.ctor, impl.fields, sF, baseline[cs.ctor]); fk != "" {
+					implBad = d
+					res.Fail("oracle", line, describe()+": "+d, "wrong-field:"+fk)
+				}
 			}
-			if sF != nil {
-				for fk, v := range sF {
-					if !valEq(v, mF[fk]) {
-						res.Fail("machinery", line, fmt.Sprintf("model and spec differ on %s: %s vs %s", fk, showVal(mF[fk]), showVal(v)), "model-vs-spec")
-						break
+			// model vs spec: a machinery bug only when the implementation itself meets the spec
+			// (otherwise the regenerated model merely mirrors the defective source)
+			if implBad == "" {
+				if sErr != mErr || (sF != nil) != (mF != nil) {
+					res.Fail("machinery", line, fmt.Sprintf("model %q vs spec %q", mErr, sErr), "model-vs-spec")
+				} else if sF != nil {
+					for fk, v := range sF {
+						if !valEq(v, mF[fk]) {
+							res.Fail("machinery", line, fmt.Sprintf("model and spec differ on %s: %s vs %s", fk, showVal(mF[fk]), showVal(v)), "model-vs-spec")
+							break
+						}
 					}
 				}
-				if fk, d := diffFields(cs.ctor, impl.fields, sF, baseline[cs.ctor]); fk != "" {
-					res.Fail("oracle", line, describe()+": "+d, "wrong-field:"+fk)
-					continue
-				}
+			} else {
+				return
 			}
 		}
 		// --- Go-only oracle: single option changes exactly the setting it names
@@ -1595,6 +1648,10 @@ func runC19(c *ctx) {
 			}
 			res.Count(fmt.Sprintf("single-changed:%d", changed))
 		}
+		// --- Go-only oracle: a construction the documentation says is fine must succeed
+		if goExpectOK(cs.ctor, cs.plat, cs.user) && (impl.err != "" || impl.panicked) {
+			res.Fail("oracle", line, fmt.Sprintf("%s: every option carries a documented value, yet the constructor fails (%s%s)", describe(), impl.err, impl.pmsg), "valid-rejected:"+impl.err)
+		}
 		// --- Go-only oracle: last wins / additive in order / user over platform, from the Go-side
 		// table of named settings (independent of the translator and the Lean model)
 		if dom && impl.err == "" && !impl.panicked {
@@ -1618,7 +1675,7 @@ func runC19(c *ctx) {
 		if cs.perm != nil {
 			if !compat {
 				res.Count("shuffle:not-compatible(skipped)")
-				continue
+				return
 			}
 			sh := make([]c19Opt, len(cs.user))
 			for j, p := range cs.perm {
@@ -1642,6 +1699,94 @@ func runC19(c *ctx) {
 			default:
 				res.Count("shuffle:same-error")
 			}
+		}
+	}
+	k := 0
+	for i := range cases {
+		cs := &cases[i]
+		a := ans[k]
+		k++
+		compat := false
+		if cs.perm != nil {
+			compat = ans[k] == "1"
+			k++
+		}
+		eval(cs, a, compat, res, i)
+	}
+	// shrink the first failing case of every oracle signature (greedy removal of user options and
+	// platform options while the same signature still fails), so that the replay is small
+	shrunk := map[string]bool{}
+	for fi := range res.Findings {
+		fd := &res.Findings[fi]
+		if fd.Kind != "oracle" || shrunk[fd.Signature] || c.replay != "" {
+			continue
+		}
+		shrunk[fd.Signature] = true
+		fl := strings.Fields(fd.Case)
+		if len(fl) != 5 || fl[1] != "construct" {
+			continue
+		}
+		cur := c19Case{class: "shrink", ctor: fl[2]}
+		if fl[3] != "-" {
+			p, err := decodePlat(fl[3])
+			if err != nil {
+				continue
+			}
+			cur.plat = p
+		}
+		u, err := decodeOpts(fl[4])
+		if err != nil {
+			continue
+		}
+		cur.user = u
+		fails := func(cand *c19Case) (string, bool) {
+			scratch := vlib.NewResult("C19")
+			eval(cand, c.ask([]string{cand.leanLine()})[0], false, scratch, 1)
+			for _, g := range scratch.Findings {
+				if g.Kind == "oracle" && g.Signature == fd.Signature {
+					return g.Detail, true
+				}
+			}
+			return "", false
+		}
+		detail, budget := fd.Detail, 60
+		for changed := true; changed && budget > 0; {
+			changed = false
+			for j := 0; j < len(cur.user) && budget > 0; j++ {
+				cand := cur
+				cand.user = append(append([]c19Opt{}, cur.user[:j]...), cur.user[j+1:]...)
+				budget--
+				if d, ok := fails(&cand); ok {
+					cur, detail, changed = cand, d, true
+					j--
+				}
+			}
+			if cur.plat != nil {
+				for j := 0; j < len(cur.plat.opts) && budget > 0; j++ {
+					cp := *cur.plat
+					cp.opts = append(append([]c19PlatOpt{}, cur.plat.opts[:j]...), cur.plat.opts[j+1:]...)
+					cand := cur
+					cand.plat = &cp
+					budget--
+					if d, ok := fails(&cand); ok {
+						cur, detail, changed = cand, d, true
+						j--
+					}
+				}
+				cp := *cur.plat
+				cp.fwc, cp.oo, cp.oc, cp.noo, cp.noc = nil, false, false, false, false
+				cand := cur
+				cand.plat = &cp
+				if len(cur.plat.fwc) > 0 || cur.plat.oo || cur.plat.oc || cur.plat.noo || cur.plat.noc {
+					budget--
+					if d, ok := fails(&cand); ok {
+						cur, detail, changed = cand, d, true
+					}
+				}
+			}
+		}
+		if cur.line() != fd.Case {
+			fd.Case, fd.Detail = cur.line(), detail
 		}
 	}
 	res.TracesVsImpl = len(cases)
